@@ -10,28 +10,10 @@
 (* following next-page tokens.  Part 2 specifies, by class of input, what  *)
 (* the framework does with a page token and a limit parameter.             *)
 (***************************************************************************)
-EXTENDS Naturals, Sequences, FiniteSets, TLC
+EXTENDS PaginationCore, FiniteSets, TLC
 
-CONSTANTS MaxItems,   \* server maximum page size
-          DefItems,   \* server default page size
-          MaxN,       \* largest collection (model checking)
+CONSTANTS MaxN,       \* largest collection (model checking)
           LimitParams \* client limit parameters explored; 0 = absent
-
-Min(a, b) == IF a <= b THEN a ELSE b
-
-\* effective page size for a client limit parameter p (0 = absent, else >= 1)
-EffLimit(p) == IF p = 0 THEN DefItems ELSE Min(p, MaxItems)
-
-(***************************************************************************)
-(* Part 1: a scan                                                          *)
-(***************************************************************************)
-VARIABLES n,        \* size of the collection (items are 1..n)
-          lim,      \* the client's limit parameter, fixed for the scan (0 = absent)
-          pos,      \* number of items returned so far
-          pages,    \* sequence of pages: [count, first, last, token]
-          open      \* TRUE while the last page carried a token (or nothing was fetched yet)
-
-svars == <<n, lim, pos, pages, open>>
 
 ScanInit ==
   /\ n \in 0..MaxN
@@ -40,24 +22,8 @@ ScanInit ==
   /\ pages = <<>>
   /\ open = TRUE
 
-\* The page the server returns when `pos` items have been consumed: the next
-\* EffLimit(lim) items (fewer at the end); a token iff the page is non-empty.
-NextPageOf(n_, lim_, pos_) ==
-  LET c == Min(EffLimit(lim_), n_ - pos_) IN
-  [count |-> c, first |-> IF c = 0 THEN 0 ELSE pos_ + 1, last |-> IF c = 0 THEN 0 ELSE pos_ + c,
-   token |-> c > 0]
-
-\* Fetch(pg): the client fetches the next page and receives pg
-Fetch(pg) ==
-  /\ open
-  /\ pg = NextPageOf(n, lim, pos)
-  /\ pages' = Append(pages, pg)
-  /\ pos' = pos + pg.count
-  /\ open' = pg.token
-  /\ UNCHANGED <<n, lim>>
-
-ScanNext == Fetch(NextPageOf(n, lim, pos))
 ScanSpec == ScanInit /\ [][ScanNext]_svars /\ WF_svars(ScanNext)
+
 
 \* ---- C15 -------------------------------------------------------------------
 RECURSIVE Concat(_)
